@@ -90,9 +90,9 @@ def replay_trigonal(data):
         if not _coincide(fh[r_atoms["element"] == z], h_atoms["frac_pos"][h_atoms["element"] == z], tol=1e-5):
             bad.append("atoms of element %d in the rhombohedral description do not coincide with the hexagonal one" % z)
     c.choose_trigonal_lattice("H")
-    if not np.allclose(np.asarray(c.unit_cell.parameters, float), np.asarray(ref.unit_cell.parameters, float), atol=1e-6):
+    if not np.allclose(np.asarray(c.unit_cell.parameters, float), np.asarray(ref.unit_cell.parameters, float), rtol=0, atol=1e-6):
         bad.append("H -> R -> H does not restore the cell")
-    if not np.allclose(np.asarray(c.asymmetric_unit.positions, float), np.asarray(ref.asymmetric_unit.positions, float), atol=1e-8):
+    if not np.allclose(np.asarray(c.asymmetric_unit.positions, float), np.asarray(ref.asymmetric_unit.positions, float), rtol=0, atol=1e-8):
         bad.append("H -> R -> H does not restore the coordinates")
     # P1 of the rhombohedral description
     c.choose_trigonal_lattice("R")
@@ -128,6 +128,8 @@ def replay_density(data):
 
 
 REPLAY["density"] = replay_density
+from . import c04 as _c04r   # noqa: E402
+REPLAY["cell"] = _c04r.replay_cell
 
 
 def part_density(ctx):
@@ -194,7 +196,13 @@ def run(ctx):
     ctx.assume("reals for doubles")
     ctx.stub("unit_cell_molecules() returns molecules with symbolic Cartesian positions f.D (its correctness is C04's subject)")
     ctx.out_of_scope("density of the new crystal through its own unit_cell_atoms (the density lemma compares with the mass of the atoms the P1 form lists)")
-    ctx.parallel_sections([("supercell", part_supercell), ("trigonal", part_trigonal), ("density", part_density)])
+    # the P1 / supercell forms are built from unit_cell_molecules(): that its molecules carry the elements and positions of the
+    # unit-cell atoms is C04's lemma, run here (one scenario family) as a dependency section
+    from . import c04 as _c04
+
+    def dep_molecules(c):
+        _c04.run_cell(c, _c04.Mods(), 3, [6, 1, 8], [2, 0, 1], 2, False, first=[2, 3], descending=0, tag="dependency (C04): ")
+    ctx.parallel_sections([("supercell", part_supercell), ("trigonal", part_trigonal), ("density", part_density), ("dependency: unit-cell molecules (C04)", dep_molecules)])
 
 
 class FakeMol:
